@@ -26,6 +26,7 @@ def check(run):
     rownum(run, p)
     nowrite(run, p)
     extcase(run, p)
+    defaults(run, p)
     from .c01 import datelang
     datelang(run, p)
     run.rules['C17-DATELANG'] = run.rules.pop('C01-DATELANG') + ' (the command line always goes through a .tdda file)'
@@ -236,3 +237,59 @@ def _lit(e):
     if isinstance(e, ast.Constant) and e.value is not None and not isinstance(e.value, bool):
         return True
     return isinstance(e, (ast.Tuple, ast.List, ast.Set)) and e.elts and all(_lit(x) for x in e.elts)
+
+
+def defaults(run, p):
+    run.rule('C17-DEFAULTS', 'an option whose absence the flag handler recognises by `flags.x is (not) None` really is None when absent: '
+                             'its add_argument gives no default other than None and no action that supplies one (store_true, '
+                             'store_const, count, append); and every flags.x the handler reads is declared by the parser of the same command')
+    n = 0
+    for cmd in ('discover', 'verify', 'detect'):
+        pf = p.fn('tdda.constraints.flags.%s_parser' % cmd)
+        ff = p.fn('tdda.constraints.flags.%s_flags' % cmd)
+        decl = {}
+        for x in p.own_nodes(pf):
+            if isinstance(x, ast.Call) and isinstance(x.func, ast.Attribute) and x.func.attr == 'add_argument':
+                kw = {k.arg: k.value for k in x.keywords if k.arg}
+                names = [a.value for a in x.args if isinstance(a, ast.Constant) and isinstance(a.value, str)]
+                dest = None
+                if 'dest' in kw and isinstance(kw['dest'], ast.Constant):
+                    dest = kw['dest'].value
+                else:
+                    longs = [s for s in names if s.startswith('--')]
+                    pick = (longs or names or [None])[0]
+                    dest = pick.lstrip('-').replace('-', '_') if pick else None
+                if dest:
+                    decl[dest] = (x, kw)
+        if len(decl) < 3:
+            raise AnalysisError('%s_parser declares only %d options' % (cmd, len(decl)))
+        read = set()
+        for x in p.own_nodes(ff):
+            if isinstance(x, ast.Attribute) and isinstance(x.value, ast.Name) and x.value.id == 'flags' and isinstance(x.ctx, ast.Load):
+                read.add(x.attr)
+        for nm in sorted(read):
+            n += 1
+            run.ob('C17-DEFAULTS', '%s::flags.%s::declared' % (cmd, nm), nm in decl,
+                   'tdda %s reads flags.%s, which its parser %s' % (cmd, nm, 'declares' if nm in decl else 'does not declare (AttributeError)'),
+                   fn=ff, nontrivial=False)
+        for x in p.own_nodes(ff):
+            if isinstance(x, ast.Compare) and len(x.ops) == 1 and isinstance(x.ops[0], (ast.Is, ast.IsNot)) and \
+                    isinstance(x.comparators[0], ast.Constant) and x.comparators[0].value is None and \
+                    isinstance(x.left, ast.Attribute) and isinstance(x.left.value, ast.Name) and x.left.value.id == 'flags':
+                nm = x.left.attr
+                if nm not in decl:
+                    continue
+                call, kw = decl[nm]
+                why = None
+                d = kw.get('default')
+                if d is not None and not (isinstance(d, ast.Constant) and d.value is None):
+                    why = 'default=%s' % norm(d)
+                a = kw.get('action')
+                if why is None and a is not None and isinstance(a, ast.Constant) and a.value in (
+                        'store_true', 'store_false', 'store_const', 'count', 'append', 'append_const', 'extend'):
+                    why = 'action=%r supplies a value when the option is absent' % a.value
+                n += 1
+                run.ob('C17-DEFAULTS', '%s::flags.%s::none-when-absent' % (cmd, nm), why is None,
+                       'tdda %s tests `%s`; the parser declares it with %s' % (cmd, norm(x), why or 'no default, so it is None when absent'),
+                       fn=pf, node=call)
+    run.floor('C17-DEFAULTS', n, 20)
